@@ -65,6 +65,37 @@ static int place(const uint8_t* src, size_t len, int right, PLACED* pl)
   return 0;
 }
 
+// "<name> <hex source>": compiles a rule set; prints "ruleset <name> errors=N rules=M [line:msg|...]"
+static void add_ruleset(char* arg, FILE* out)
+{
+  char* sp = strchr(arg, ' ');
+  if (sp && nrulesets < 256)
+  {
+    *sp = 0;
+    RULESET* r = &rulesets[nrulesets++];
+    strncpy(r->name, arg, 63);
+    size_t n;
+    uint8_t* src = h_unhex(sp + 1, &n);
+    YR_COMPILER* c = NULL;
+    CERR ce = {0};
+    yr_compiler_create(&c);
+    yr_compiler_set_callback(c, compile_cb, &ce);
+    int errs = yr_compiler_add_string(c, (const char*) src, NULL);
+    r->rules = NULL;
+    r->nrules = 0;
+    if (errs == 0 && yr_compiler_get_rules(c, &r->rules) != ERROR_SUCCESS) { r->rules = NULL; errs = -1; }
+    if (r->rules)
+    {
+      YR_RULE* rule;
+      yr_rules_foreach(r->rules, rule) r->nrules++;
+    }
+    yr_compiler_destroy(c);
+    free(src);
+    fprintf(out, "ruleset %s errors=%d rules=%d %s\n", r->name, errs, r->nrules, ce.buf);
+    fflush(out);
+  }
+}
+
 static void run_case(void* arg, FILE* out)
 {
   CASE* cs = (CASE*) arg;
@@ -73,6 +104,7 @@ static void run_case(void* arg, FILE* out)
   // addrpatch requests are applied after placement (they depend on the address)
   struct { size_t off; int width; long k; } ap[16];
   int nap = 0;
+  int own_from = -1;      // rule sets compiled by this case
   dup2(fileno(out), 2);   // sanitizer reports belong to the case
   for (int i = 0; i < cs->n; i++)
   {
@@ -87,6 +119,11 @@ static void run_case(void* arg, FILE* out)
       work = (uint8_t*) malloc(wlen + 1);
       memcpy(work, samples[f].data, wlen);
       nap = 0;
+    }
+    else if (!strncmp(l, "ruleset ", 8))
+    {
+      own_from = own_from < 0 ? nrulesets : own_from;
+      add_ruleset(l + 8, out);
     }
     else if (!strncmp(l, "bytes ", 6))
     {
@@ -168,6 +205,8 @@ static void run_case(void* arg, FILE* out)
       fprintf(out, "error unknown command %.20s\n", l);
   }
   free(work);
+  if (own_from >= 0)
+    for (int k = own_from; k < nrulesets; k++) if (rulesets[k].rules) yr_rules_destroy(rulesets[k].rules);
   if (__lsan_do_recoverable_leak_check)
     fprintf(out, "leakcheck %d\n", __lsan_do_recoverable_leak_check());
 }
@@ -198,31 +237,7 @@ int main(int argc, char** argv)
     }
     if (!in_case && !strncmp(line, "ruleset ", 8))
     {
-      char* sp = strchr(line + 8, ' ');
-      if (sp && nrulesets < 256)
-      {
-        *sp = 0;
-        RULESET* r = &rulesets[nrulesets++];
-        strncpy(r->name, line + 8, 63);
-        size_t n;
-        uint8_t* src = h_unhex(sp + 1, &n);
-        YR_COMPILER* c = NULL;
-        CERR ce = {0};
-        yr_compiler_create(&c);
-        yr_compiler_set_callback(c, compile_cb, &ce);
-        int errs = yr_compiler_add_string(c, (const char*) src, NULL);
-        r->rules = NULL;
-        if (errs == 0 && yr_compiler_get_rules(c, &r->rules) != ERROR_SUCCESS) { r->rules = NULL; errs = -1; }
-        if (r->rules)
-        {
-          YR_RULE* rule;
-          yr_rules_foreach(r->rules, rule) r->nrules++;
-        }
-        yr_compiler_destroy(c);
-        free(src);
-        printf("ruleset %s errors=%d rules=%d %s\n", r->name, errs, r->nrules, ce.buf);
-        fflush(stdout);
-      }
+      add_ruleset(line + 8, stdout);
       free(line);
       continue;
     }
